@@ -143,3 +143,89 @@ theorem energyResT_powerLaw (ρ u T : Field) (Γ γ k c a lam0 α β R Θ m n r 
   ring
 
 end EPV.Lemmas
+
+/-! ### Transfer from a leaf of a traced decision tree to the returned (tree-level) fields
+
+When the path conditions depend on the position (a shock), the returned field agrees with the
+field of one leaf only *near* the point.  The residuals of `Spec.Euler1D` at (r, t) depend only on
+the germs of x ↦ f x t at r and of s ↦ f r s at t. -/
+namespace EPV.Lemmas
+
+open Filter Topology
+
+/-- `f` and `g` agree near (r, t) along both coordinate lines through the point -/
+def AgreeNear (f g : Field) (r t : ℝ) : Prop :=
+  (fun x => f x t) =ᶠ[𝓝 r] (fun x => g x t) ∧ (fun s => f r s) =ᶠ[𝓝 t] fun s => g r s
+
+theorem AgreeNear.eq {f g : Field} {r t : ℝ} (h : AgreeNear f g r t) : f r t = g r t :=
+  h.1.eq_of_nhds
+
+theorem AgreeNear.dr {f g : Field} {r t : ℝ} (h : AgreeNear f g r t) : dr f r t = dr g r t := by
+  unfold Spec.dr
+  exact h.1.deriv_eq
+
+theorem AgreeNear.dt {f g : Field} {r t : ℝ} (h : AgreeNear f g r t) : dt f r t = dt g r t := by
+  unfold Spec.dt
+  exact h.2.deriv_eq
+
+/-- two fields that coincide wherever a condition holds agree near every point around which the
+condition holds along both coordinate lines (an open region of the (r, t) plane) -/
+theorem agreeNear_of_cond {f g : Field} {c : ℝ → ℝ → Prop} {r t : ℝ}
+    (hfg : ∀ x s, c x s → f x s = g x s)
+    (hx : ∀ᶠ x in 𝓝 r, c x t) (hs : ∀ᶠ s in 𝓝 t, c r s) : AgreeNear f g r t :=
+  ⟨hx.mono fun x hc => hfg x t hc, hs.mono fun s hc => hfg r s hc⟩
+
+theorem massRes_congr_near {ρ ρ' u u' : Field} {k r t : ℝ} (hρ : AgreeNear ρ ρ' r t)
+    (hu : AgreeNear u u' r t) : massRes ρ u k r t = massRes ρ' u' k r t := by
+  unfold massRes
+  rw [hρ.dt, hρ.dr, hu.dr, hρ.eq, hu.eq]
+
+theorem momResT_congr_near {ρ ρ' u u' T T' : Field} {Γ r t : ℝ} (hρ : AgreeNear ρ ρ' r t)
+    (hu : AgreeNear u u' r t) (hT : AgreeNear T T' r t) :
+    momResT ρ u T Γ r t = momResT ρ' u' T' Γ r t := by
+  unfold momResT
+  rw [hu.dt, hu.dr, hρ.dr, hT.dr, hρ.eq, hu.eq, hT.eq]
+
+theorem momResP_congr_near {ρ ρ' u u' p p' : Field} {r t : ℝ} (hρ : AgreeNear ρ ρ' r t)
+    (hu : AgreeNear u u' r t) (hp : AgreeNear p p' r t) :
+    momResP ρ u p r t = momResP ρ' u' p' r t := by
+  unfold momResP
+  rw [hu.dt, hu.dr, hp.dr, hρ.eq, hu.eq]
+
+theorem energyResE_congr_near {ρ ρ' u u' p p' e e' : Field} {k r t : ℝ} (hρ : AgreeNear ρ ρ' r t)
+    (hu : AgreeNear u u' r t) (hp : AgreeNear p p' r t) (he : AgreeNear e e' r t) :
+    energyResE ρ u p e k r t = energyResE ρ' u' p' e' k r t := by
+  unfold energyResE
+  rw [he.dt, he.dr, hu.dr, hρ.eq, hu.eq, hp.eq]
+
+theorem energyHydroT_congr_near {u u' T T' : Field} {Γ γ k r t : ℝ} (hu : AgreeNear u u' r t)
+    (hT : AgreeNear T T' r t) : energyHydroT u T Γ γ k r t = energyHydroT u' T' Γ γ k r t := by
+  unfold energyHydroT
+  rw [hT.dt, hT.dr, hu.dr, hu.eq, hT.eq]
+
+/-- the heat flux as a function of the position, near r -/
+theorem heatFlux_congr_near {ρ ρ' T T' : Field} {c a lam0 α β r t : ℝ}
+    (hρ : (fun x => ρ x t) =ᶠ[𝓝 r] fun x => ρ' x t) (hT : (fun x => T x t) =ᶠ[𝓝 r] fun x => T' x t) :
+    (fun x => heatFlux ρ T c a lam0 α β x t) =ᶠ[𝓝 r] fun x => heatFlux ρ' T' c a lam0 α β x t := by
+  have hT2 : ∀ᶠ x in 𝓝 r, (fun y => T y t) =ᶠ[𝓝 x] fun y => T' y t := hT.eventually_nhds
+  filter_upwards [hρ, hT, hT2] with x hρx hTx hTx2
+  unfold heatFlux Spec.dr
+  have h4 : (fun y => a * T y t ^ (4 : ℕ)) =ᶠ[𝓝 x] fun y => a * T' y t ^ (4 : ℕ) := by
+    filter_upwards [hTx2] with y hy
+    have hy' : T y t = T' y t := hy
+    rw [hy']
+  have hρx' : ρ x t = ρ' x t := hρx
+  have hTx' : T x t = T' x t := hTx
+  rw [h4.deriv_eq, hρx', hTx']
+
+theorem energyResT_congr_near {ρ ρ' u u' T T' : Field} {Γ γ k c a lam0 α β r t : ℝ}
+    (hρ : AgreeNear ρ ρ' r t) (hu : AgreeNear u u' r t) (hT : AgreeNear T T' r t) :
+    energyResT ρ u T Γ γ k c a lam0 α β r t = energyResT ρ' u' T' Γ γ k c a lam0 α β r t := by
+  have hF := heatFlux_congr_near (c := c) (a := a) (lam0 := lam0) (α := α) (β := β) hρ.1 hT.1
+  unfold energyResT
+  have h1 : Spec.dr (heatFlux ρ T c a lam0 α β) r t = Spec.dr (heatFlux ρ' T' c a lam0 α β) r t := by
+    unfold Spec.dr
+    exact hF.deriv_eq
+  rw [h1, hF.eq_of_nhds, energyHydroT_congr_near hu hT, hρ.eq]
+
+end EPV.Lemmas
